@@ -98,6 +98,56 @@ def r_open_body(rng, remote_as=None, valid_bias=0.7):
     return body
 
 
+def r_open_single_fault(rng, remote_as, local_id=None):
+    """A well-formed, acceptable OPEN with exactly one semantic fault injected."""
+    ver, hold, bid = 4, rng.choice([0, 3, 90, 65535]), rng.choice([0x0A000002, 0x01010101, 0xDFFFFFFF, 0xF0000001])
+    asn = remote_as if remote_as <= 65535 else 23456
+    as4val = struct.pack(">I", remote_as)
+    fault = rng.choice(["none", "ver", "asn", "asn.low16", "asn.trans", "hold", "id.mcast", "id.local", "as4.missing",
+                        "as4.wrong", "as4.len", "as4.second.wrong", "param.unknown", "param.empty", "caps.empty"])
+    extra = []
+    if fault == "ver":
+        ver = rng.choice([0, 1, 3, 5, 255])
+    elif fault == "asn":
+        asn = (asn + rng.choice([1, 0xFFFF, 7])) & 0xFFFF
+    elif fault == "asn.low16":
+        asn = remote_as & 0xFFFF          # low 16 bits of a 4-octet AS instead of AS_TRANS
+    elif fault == "asn.trans":
+        asn = 23456                        # AS_TRANS although the AS fits (allowed when the capability matches)
+    elif fault == "hold":
+        hold = rng.choice([1, 2])
+    elif fault == "id.mcast":
+        bid = rng.choice([0xE0000000, 0xE0000001, 0xEFFFFFFF, 0xE8010203])
+    elif fault == "id.local" and local_id is not None:
+        bid = local_id
+    caps = []
+    if fault != "as4.missing":
+        if fault == "as4.wrong":
+            as4val = struct.pack(">I", (remote_as + 1) & 0xFFFFFFFF)
+        if fault == "as4.len":
+            as4val = as4val[:rng.choice([0, 3])] if rng.random() < 0.5 else as4val + b"\x00"
+        caps.append(enc_cap(65, as4val))
+    if fault == "as4.second.wrong":
+        caps.append(enc_cap(65, struct.pack(">I", (remote_as ^ 0x10000) & 0xFFFFFFFF)))
+    for _ in range(rng.choice([0, 1, 2])):
+        code, val = r_cap(rng, remote_as)
+        if code != 65:
+            caps.insert(rng.randint(0, len(caps)), enc_cap(code, val))
+    if rng.random() < 0.3 and len(caps) > 1:      # spread over two parameters
+        k = rng.randint(1, len(caps) - 1)
+        groups = [caps[:k], caps[k:]]
+    else:
+        groups = [caps] if caps else [[enc_cap(1, b"\x00\x01\x00\x01")]]
+    params = b"".join(bytes([2, len(b"".join(g))]) + b"".join(g) for g in groups)
+    if fault == "param.unknown":
+        params = bytes([rng.choice([0, 1, 3, 255]), 0]) + params if rng.random() < 0.5 else params + bytes([3, 1, 0])
+    elif fault == "param.empty":
+        params = b""
+    elif fault == "caps.empty":
+        params = bytes([2, 0]) + (params if rng.random() < 0.5 else b"")
+    return struct.pack(">BHHIB", ver, asn, hold, bid, len(params) & 0xFF) + params, fault
+
+
 def mutate(rng, b, n=None):
     b = bytearray(b)
     if not b:
@@ -116,3 +166,174 @@ def mutate(rng, b, n=None):
         if not b:
             break
     return bytes(b)
+
+
+# ------------------------------------------------------------------ UPDATE
+
+def enc_prefix(bits, addr):
+    n = (bits + 7) // 8
+    return bytes([bits]) + bytes(addr[:n])
+
+
+def r_prefix(rng, ipv6=False, valid=True):
+    mx = 128 if ipv6 else 32
+    if valid:
+        bits = rng.choice([0, 1, 7, 8, 9, 16, 24, mx - 1, mx, rng.randint(0, mx)])
+    else:
+        bits = rng.choice([mx + 1, mx + 7, mx + 8, 129, 200, 248, 249, 255, rng.randint(mx + 1, 255)])
+    return enc_prefix(bits, rbytes(rng, 16))
+
+
+def r_prefixes(rng, ipv6=False, addpath=False, valid=True, maxn=6):
+    out = b""
+    n = rng.choice([0, 1, 1, 2, 3, rng.randint(0, maxn)])
+    bad_at = rng.randrange(n) if (not valid and n) else -1
+    for i in range(n):
+        if addpath:
+            out += struct.pack(">I", r_u32(rng))
+        out += r_prefix(rng, ipv6, valid=(i != bad_at))
+    if not valid and rng.random() < 0.5 and out:
+        out = out[:rng.randint(1, len(out))] if rng.random() < 0.7 else out + rbytes(rng, rng.randint(1, 3))
+    return out
+
+
+ATTR_FLAGS = {1: 0x40, 2: 0x40, 3: 0x40, 4: 0x80, 5: 0x40, 6: 0x40, 7: 0xC0, 8: 0xC0, 9: 0x80, 10: 0x80, 14: 0x80, 15: 0x80,
+              16: 0xC0, 32: 0xC0}
+
+
+def r_attr_value(rng, code, valid=True):
+    u32 = lambda: struct.pack(">I", r_u32(rng))
+    if code == 1:
+        return bytes([rng.choice([0, 1, 2])]) if valid else rng.choice([b"", bytes([3]), bytes([255]), bytes([0, 0])])
+    if code == 2:
+        if valid:
+            segs = b""
+            for _ in range(rng.choice([0, 1, 1, 2, 3])):
+                k = rng.choice([1, 1, 2, 5, 63, 64, 65, 255]) if rng.random() < 0.2 else rng.randint(1, 6)
+                segs += bytes([rng.choice([1, 2]), k]) + b"".join(u32() for _ in range(k))
+            return segs
+        return rng.choice([bytes([2, 0]), bytes([3, 1]) + u32(), bytes([2, 2]) + u32(), bytes([2, 1]) + u32()[:3],
+                           bytes([2, 1]) + u32() + b"\x02", bytes([2]), bytes([2, 1]) + u32() + bytes([2, 0, 0, 0, 0, 0])])
+    if code in (3, 9):
+        return rbytes(rng, 4) if valid else rbytes(rng, rng.choice([0, 3, 5, 16]))
+    if code in (4, 5):
+        return u32() if valid else rbytes(rng, rng.choice([0, 3, 5, 8]))
+    if code == 6:
+        return b"" if valid else rbytes(rng, rng.choice([1, 4]))
+    if code == 7:
+        return u32() + rbytes(rng, 4) if valid else rbytes(rng, rng.choice([0, 6, 7, 9]))
+    if code in (8, 10):
+        return b"".join(u32() for _ in range(rng.randint(1, 5))) if valid else rbytes(rng, rng.choice([0, 1, 3, 5, 6, 7]))
+    if code == 32:
+        return b"".join(u32() + u32() + u32() for _ in range(rng.randint(1, 3))) if valid else rbytes(rng, rng.choice([0, 4, 11, 13, 20]))
+    if code == 14:
+        nh = rbytes(rng, rng.choice([16, 32, 4, 0]))
+        return struct.pack(">HBB", rng.choice([1, 2]), rng.choice([1, 2, 128]), len(nh)) + nh + b"\x00" + r_prefixes(rng, True)
+    if code == 15:
+        return struct.pack(">HB", rng.choice([1, 2]), rng.choice([1, 2, 128])) + r_prefixes(rng, True)
+    return rbytes(rng, rng.choice([0, 1, 4, 8, rng.randint(0, 40)]))
+
+
+def enc_attr(flags, code, val, ext=None, lie=None):
+    if ext is None:
+        ext = len(val) > 255
+    ln = len(val) if lie is None else lie
+    if ext:
+        return bytes([flags | 0x10, code]) + struct.pack(">H", ln & 0xFFFF) + val
+    return bytes([flags & ~0x10 & 0xFF, code, ln & 0xFF]) + val
+
+
+def r_update_body(rng, valid_bias=0.6):
+    """Grammar-based UPDATE body; returns (body, tag)."""
+    good = rng.random() < valid_bias
+    wr = r_prefixes(rng) if rng.random() < 0.4 else b""
+    nlri = r_prefixes(rng) if rng.random() < 0.6 else b""
+    attrs = b""
+    tag = "upd.good" if good else "upd.fault"
+    codes = []
+    if nlri or rng.random() < 0.3:
+        codes = [1, 2, 3]
+    codes += rng.sample([4, 5, 6, 7, 8, 9, 10, 14, 15, 16, 32, 33, 46, 97, 128, 200, 255], rng.randint(0, 4))
+    rng.shuffle(codes)
+    if not good:
+        f = rng.choice(["dup", "dup.mp", "missing", "overrun", "trunc.hdr", "wrl", "pal", "short", "flags", "badval", "extlen", "empty.attrs"])
+        tag = "upd.fault." + f
+    else:
+        f = None
+    if f == "dup" and codes:
+        codes.insert(rng.randint(0, len(codes)), rng.choice(codes))
+    if f == "dup.mp":
+        c = rng.choice([14, 15])
+        codes += [c, c]
+        rng.shuffle(codes)
+    if f == "missing":
+        codes = [c for c in codes if c != rng.choice([1, 2])]
+        if not nlri:
+            nlri = r_prefixes(rng) or enc_prefix(24, b"\x0a\x00\x00")
+    if f == "empty.attrs":
+        codes = []
+        nlri = nlri or enc_prefix(8, b"\x0a")
+    for c in codes:
+        fl = ATTR_FLAGS.get(c, rng.choice([0x40, 0x80, 0xC0]))
+        if f == "flags" and rng.random() < 0.5:
+            fl = rng.choice([0x00, 0x40, 0x80, 0xC0, 0xE0, 0x20])
+        val = r_attr_value(rng, c, valid=not (f == "badval" and rng.random() < 0.5))
+        ext = None
+        if f == "extlen" or rng.random() < 0.1:
+            ext = True
+        attrs += enc_attr(fl | (rng.choice([0, 0x20]) if fl & 0x80 and fl & 0x40 else 0), c, val, ext)
+    if f == "overrun" and codes:
+        c = rng.choice([1, 2, 4, 8, 33])
+        val = r_attr_value(rng, c)
+        attrs += enc_attr(ATTR_FLAGS.get(c, 0xC0), c, val, lie=len(val) + rng.choice([1, 2, 50]))
+    if f == "trunc.hdr":
+        attrs += rng.choice([bytes([0x40]), bytes([0x40, 1]), bytes([0x50, 2, 0]), bytes([0x50, 1])])
+    wrl = len(wr)
+    pal = len(attrs)
+    if f == "wrl":
+        wrl = rng.choice([wrl + 1, wrl + len(attrs) + len(nlri) + 1, 65535, 65534, max(0, wrl - 1)])
+    if f == "pal":
+        pal = rng.choice([pal + 1, pal + len(nlri) + 1, 65535, max(0, pal - 1)])
+    body = struct.pack(">H", wrl & 0xFFFF) + wr + struct.pack(">H", pal & 0xFFFF) + attrs + nlri
+    if f == "short":
+        body = body[:rng.randint(0, 3)]
+    return body, tag
+
+
+ERR_NOTIF = lambda c, s, d=b"": [1, c, s, len(d)] + list(d)
+
+
+def r_err_tree(rng, depth=0):
+    """Token list of a random error tree."""
+    r = rng.random()
+    n = lambda: [rng.choice([3, 3, 2, 6]), rng.randint(0, 11), 0] if rng.random() < 0.6 else [3, rng.randint(0, 11), 2, 1, 2]
+    on = lambda: [0] if rng.random() < 0.3 else [1] + n()
+    if depth >= 3 or r < 0.55:
+        k = rng.choice([1, 2, 2, 3, 3, 4, 5])
+        if k == 1:
+            return [1] + n()
+        if k == 2:
+            return [2, rng.randint(0, 40)] + on()
+        if k == 3:
+            return [3, rng.randint(0, 40)] + on()
+        if k == 4:
+            return [4] + n()
+        return [5]
+    if r < 0.85:
+        k = rng.randint(1, 4)
+        out = [6, k]
+        for _ in range(k):
+            out += r_err_tree(rng, depth + 1)
+        return out
+    return [7] + r_err_tree(rng, depth + 1)
+
+
+def r_script(rng, ncalls=8, p_err=0.25):
+    out = []
+    for _ in range(ncalls):
+        if rng.random() < p_err:
+            t = r_err_tree(rng, 1)
+            out += [len(t)] + t
+        else:
+            out += [0]
+    return out
